@@ -376,6 +376,47 @@ def fam_units16(v):
     return cells, {'kind': name, 'units16': '%s/%s' % (u, m), 'units_leading_zero_digits': '%d,%d' % (s1, s2)}, {'units': (u, m), 'units_shift': (s1, s2)}
 
 
+# long records: one record of >= 32768 bytes (length word has its top bit set) up to the 65534-byte maximum
+LONG_XY = [(4095,), (4096,), (4097,), (8190,), (8191,), (8191, 5), (8190, 10)]     # XY pairs per record
+LONG_STR = [32763, 32764, 32766, 40000, 65529, 65530]
+LONG_WHICH = ['libname', 'strname+sname', 'string']
+
+
+def long_points(n):
+    return [(i * 7 - 20000, (i * i * 3) % 9973 - 5000) for i in range(n)]
+
+
+def fam_long_records(v):
+    """index 0..13: BOUNDARY / PATH with long XY records; 14..31: long strings"""
+    k = v[0]
+    hdr = {}
+    if k < 2 * len(LONG_XY):
+        kind, split = ('boundary', 'path')[k % 2], LONG_XY[k // 2]
+        n = sum(split)
+        if kind == 'boundary':
+            el = {'kind': 'boundary', 'layer': 1, 'datatype': 2, 'xy': long_points(n - 1), 'syn': {'xy_split': split}}   # n pairs incl. the closing one
+        else:
+            el = {'kind': 'path', 'layer': 3, 'datatype': 4, 'width': 10, 'xy': long_points(n), 'syn': {'xy_split': split}}
+        cells = [{'name': 'TOP', 'elements': [el]}]
+        tags = {'kind': kind, 'xy_records': '+'.join(map(str, split)), 'largest_record_bytes': 4 + 8 * max(split)}
+    else:
+        k -= 2 * len(LONG_XY)
+        which, n = LONG_WHICH[k // len(LONG_STR)], LONG_STR[k % len(LONG_STR)]
+        body = (('N%d_' % n) * (n // 4 + 2))[:n]
+        cells = [kid_cell('KID'), {'name': 'TOP', 'elements': [{'kind': 'sref', 'sname': 'KID', 'xy': (10, 20)}, text_el(None, (None, None), None, b'ab')]}]
+        if which == 'libname':
+            hdr['libname'] = body
+        elif which == 'strname+sname':
+            cells[0]['name'] = body
+            cells[1]['elements'][0]['sname'] = body
+        else:
+            cells[1]['elements'][1] = text_el(None, (None, None), None, body.encode('ascii'))
+        tags = {'kind': 'long_string', 'record': which, 'string_length': n, 'largest_record_bytes': 4 + n + (n & 1)}
+    return cells, tags, hdr
+
+
+N_LONG = 2 * len(LONG_XY) + len(LONG_WHICH) * len(LONG_STR)
+
 FAMILIES = {
     'header': ([16, 3, 6], fam_header),
     'order': ([24, 2], fam_order),
@@ -389,6 +430,7 @@ FAMILIES = {
     'triples_q': ([len(PAIR_Q)] * 3, lambda v: fam_triples(v, PAIR_Q)),
     'triples_t': ([len(PAIR_T)] * 3, lambda v: fam_triples(v, PAIR_T)),
     'dupattr': ([4, 4, 4, 3], fam_dupattr),
+    'long_records': ([N_LONG], fam_long_records),
     'real8': ([2, len(R8_MAG), len(R8_ANG), 3], fam_real8),
     'units16': ([len(U16), 3, 3, 6], fam_units16),
     'boundary': ([len(BND_SPLITS), 2, 3, 2, 2, 5], fam_boundary),
@@ -419,7 +461,7 @@ def make_d1(family, index, ctx):
 def d1_nontrivial(layout, family):
     if family.startswith('pairs') or family.startswith('triples'):
         return True
-    if any(layout.get(k) is not None for k in ('reflibs', 'fonts', 'attrtable', 'generations', 'format')) or family in ('real8', 'units16'):
+    if any(layout.get(k) is not None for k in ('reflibs', 'fonts', 'attrtable', 'generations', 'format')) or family in ('real8', 'units16', 'long_records'):
         return True
     for c in layout['cells']:
         if c['name'].startswith('KID') or c['name'] == 'LEAF':
@@ -454,6 +496,7 @@ def d1_plan(tier):
     nq, nt = len(PAIR_Q), len(PAIR_T)
     if tier == 'quick':
         cyc = 'every variant, context (%d UNITS x %d requested units) cycled with the index' % (NU, NR)
+        plan.append(('long_records', full('long_records'), 'cycle', 'one record of 32768..65534 bytes: BOUNDARY/PATH with XY records of 4095, 4096, 4097, 8190, 8191 pairs and splits 8191+5, 8190+10; LIBNAME / STRNAME+SNAME / STRING of 32763, 32764, 32766, 40000, 65529, 65530 bytes; context cycled'))
         for f in ('header', 'order', 'path_xy1', 'dupattr', 'sref', 'aref', 'box', 'path'):
             plan.append((f, full(f), 'cycle', cyc))
         plan.append(('real8', full('real8'), 'cycle', 'SREF/TEXT with MAG and ANGLE at exact powers of 16, each normalised and with 1 or 2 leading zero mantissa digits, context cycled'))
@@ -464,6 +507,7 @@ def d1_plan(tier):
         plan.append(('text', text_quick_indices(), 'cycle', 'all 37x37 presentation x transformation combinations, pathtype/width, string parity, ELFLAGS/PLEX/property and context cycled'))
     else:
         allc = 'every variant x all %d contexts (%d UNITS x %d requested units)' % (NCTX, NU, NR)
+        plan.append(('long_records', full('long_records'), 'all', 'one record of 32768..65534 bytes: BOUNDARY/PATH with XY records of 4095, 4096, 4097, 8190, 8191 pairs and splits 8191+5, 8190+10; LIBNAME / STRNAME+SNAME / STRING of 32763, 32764, 32766, 40000, 65529, 65530 bytes; x all %d contexts' % NCTX))
         for f in ('header', 'order', 'path_xy1', 'dupattr', 'sref', 'aref', 'box', 'path'):
             plan.append((f, full(f), 'all', allc))
         plan.append(('real8', full('real8'), 'all', 'SREF/TEXT with MAG and ANGLE at exact powers of 16, each normalised and with 1 or 2 leading zero mantissa digits, x all %d contexts' % NCTX))
